@@ -2121,3 +2121,106 @@ Proof.
     unfold placed. rewrite SP. reflexivity.
   - apply graft_file_placed. exact ND.
 Qed.
+
+(* ================================================================== *)
+(* round 6: WIDTH -- the worklist of the recursive lister has no bound    *)
+
+(* The recursive lister is a WORKLIST algorithm: `cls.directories` (a FIFO queue) holds the directories still to be
+   visited.  Whatever the number of directories pending (the length of qr is arbitrary: no bound on the width of the
+   tree, i.e. on how many directories wait at once), the loop returns what it had accumulated plus every entry below
+   the current directory and below EVERY pending directory, each exactly once: nothing that was queued is dropped. *)
+Lemma list_worklist_complete cwd fs ab fuel rel ch qr acc :
+  q_ok cwd fs ab ((rel, ch) :: qr) ->
+  (qsize ((rel, ch) :: qr) <= fuel)%nat ->
+  exists l,
+    list_loop fuel cwd fs true (mkp ab rel) (map (fun rc => mkp ab (fst rc)) qr) acc = Ok (acc ++ l) /\
+    Permutation l (map (item_of ab) (qnodes ((rel, ch) :: qr))).
+Proof.
+  intros OK Hq. eexists. split.
+  - apply (list_loop_bfs cwd fs ab fuel rel ch qr acc OK Hq).
+  - apply Permutation_map. apply bfs_perm. assumption.
+Qed.
+
+(* a bounded queue in the sense of collections.deque(maxlen=m): appending to a full queue discards from the LEFT *)
+Definition push_bounded {A} (m : nat) (q : list A) (x : A) : list A :=
+  if Nat.ltb (length q) m then q ++ [x] else tl (q ++ [x]).
+
+Fixpoint list_loop_bounded (m : nat) (fuel : nat) (cwd : list name) (fs : tree)
+         (cur : ppath) (dirs : list ppath) (acc : list item) : res (list item) :=
+  match fuel with
+  | O => OutOfFuel
+  | S f =>
+      bind (r_list cwd fs cur) (fun ents =>
+        let items := list_items cur ents in
+        let dirs' := fold_left (push_bounded m) (map fst (filter snd items)) dirs in
+        match dirs' with
+        | [] => Ok (acc ++ items)
+        | nxt :: rest => list_loop_bounded m f cwd fs nxt rest (acc ++ items)
+        end)
+  end.
+
+Lemma push_all_unbounded {A} (m : nat) (new q : list A) :
+  (length q + length new <= m)%nat -> fold_left (push_bounded m) new q = q ++ new.
+Proof.
+  revert q. induction new as [|x new IH]; intros q H; simpl.
+  - rewrite app_nil_r. reflexivity.
+  - unfold push_bounded at 2. simpl in H.
+    destruct (Nat.ltb_spec (length q) m); [|lia].
+    rewrite IH; [rewrite <- app_assoc; reflexivity|]. rewrite app_length. simpl. lia.
+Qed.
+
+Definition wide3 : tree :=
+  Dir [([100%Z], Dir [([1%Z], File [7%Z])]); ([101%Z], Dir [([1%Z], File [8%Z])]); ([102%Z], Dir [([1%Z], File [9%Z])])].
+
+Example bounded_queue_loses_entries :
+  (exists l, list_path 10 [] wide3 true (mkp true []) = Ok l /\ length l = 6%nat) /\
+  (exists l, list_loop_bounded 2 10 [] wide3 (mkp true []) [] [] = Ok l /\ length l = 5%nat).
+Proof. split; eexists; split; vm_compute; reflexivity. Qed.
+
+(* the wide family: one directory with n sub-directories (names [i]) each holding one file *)
+Definition wide_child (i : nat) : name * tree := ([Z.of_nat i], Dir [([0%Z], File [Z.of_nat i])]).
+Definition wide (n : nat) : tree := Dir (map wide_child (seq 0 n)).
+
+Lemma wide_names_nodup s n : NoDup (map fst (map wide_child (seq s n))).
+Proof.
+  rewrite map_map. cbn [wide_child fst].
+  apply FinFun.Injective_map_NoDup; [|apply seq_NoDup].
+  intros a b E. inversion E. lia.
+Qed.
+
+Lemma wf_wide n : wf_tree (wide n).
+Proof.
+  apply wf_tree_dir. split; [apply wide_names_nodup|].
+  apply Forall_forall. intros [nm t] I. apply in_map_iff in I as [i [E _]]. inversion E; subst.
+  cbn [snd]. apply wf_tree_dir. split.
+  - simpl. constructor; [intros []|constructor].
+  - constructor; [exact Logic.I|constructor].
+Qed.
+
+Lemma sizes_wide s n : sizes (map wide_child (seq s n)) = (2 * n)%nat.
+Proof.
+  revert s. induction n as [|n IH]; intro s; [reflexivity|].
+  cbn [seq map]. unfold wide_child at 1. rewrite sizes_cons, IH. simpl. lia.
+Qed.
+
+Lemma entries_wide_length pre s n : length (entries pre (Dir (map wide_child (seq s n)))) = (2 * n)%nat.
+Proof.
+  unfold entries. rewrite map_length.
+  revert s. induction n as [|n IH]; intro s; [reflexivity|].
+  cbn [seq map]. unfold wide_child at 1. rewrite nodes_dir_cons. cbn [length]. rewrite app_length, IH. simpl. lia.
+Qed.
+
+(* for EVERY width n: listing the directory with n sub-directories (n directories pending at once after the first
+   LIST/MLSD) returns exactly its 2n entries *)
+Lemma list_wide_complete n :
+  exists l, list_path (S (2 * n)) [] (wide n) true (mkp true []) = Ok l /\
+            length l = (2 * n)%nat /\
+            Permutation l (map (fun e => (mkp true (fst e), snd e)) (entries [] (wide n))).
+Proof.
+  destruct (list_recursive_exact [] (wide n) (mkp true []) (wide n) (S (2 * n))) as [l [E P]].
+  - reflexivity.
+  - apply wf_wide.
+  - unfold wide. rewrite tree_size_dir, sizes_wide. lia.
+  - exists l. split; [exact E|]. split; [|exact P].
+    rewrite (Permutation_length P), map_length. apply entries_wide_length.
+Qed.
